@@ -14,7 +14,8 @@ from harness import common as cm
 ASSUMPTIONS = [
     "reals, not floats; contraction off",
     "structure (locations, levels, entry points, requested dimensions, cut-off 3) is the enumerated bound; contents symbolic",
-    "adequacy of the Displace / Squeeze dimension search against its threshold is NOT decided (iterated float expm)",
+    "adequacy of the Displace / Squeeze dimension search is NOT decided symbolically (iterated float expm); it is exercised "
+    "with concrete parameters on number states only (cases ideal/...: lost population <= 1e-4, deviation <= 5e-3)",
 ]
 BOUNDS = {
     "quick": "Fock cut-off 3 (2 inside 3-member product spaces), requested dimensions 0..5, every location x level x entry point",
@@ -59,13 +60,90 @@ def cases(tier):
         for op in ("Creation", "Annihilation", "PhaseShift", "Identity"):
             out.append({"id": f"auto/{lid}/{op}", "what": "auto", "world": w, "target": t, "entry": entries[-1], "op": op,
                         "kind": "fock"})
+    # (c) displacement / squeezing with CONCRETE parameters on number states at several locations: the automatically
+    #     chosen cut-off must keep the result within the documented truncation threshold of the ideal state
+    for op, params in (("Displace", [0.4 + 0.3j, -0.8j, 1.1]), ("Squeeze", [0.3, 0.2 - 0.25j])):
+        for k, par in enumerate(params):
+            for loc in ("own-L", "own-V", "env-PF", "ps-second"):
+                for n0 in (0, 1):
+                    out.append({"id": f"ideal/{op}/{k}/{loc}/n{n0}", "what": "ideal", "op": op, "param": [par.real, par.imag] if
+                                isinstance(par, complex) else [float(par), 0.0], "loc": loc, "n0": n0})
     return out
+
+
+def _ideal(B, case):
+    """concrete run through the real dimension search; compared with the operator at a much larger cut-off"""
+    import numpy as np
+    import scipy.linalg as sl
+
+    from photon_weave.operation import FockOperationType, Operation
+
+    from symx.world import World
+
+    n0, loc = case["n0"], case["loc"]
+    par = complex(case["param"][0], case["param"][1])
+    S = cm.subs(2, 0, [n0 + 1, 2])
+    if loc == "own-L":
+        w = cm.world(S, [{"kind": "own", "sub": "f0", "level": "L", "label": n0}])
+    elif loc == "own-V":
+        w = cm.world(S, [{"kind": "own", "sub": "f0", "level": "L", "label": n0}])
+    elif loc == "env-PF":
+        w = cm.world(S, [{"kind": "own", "sub": "f0", "level": "L", "label": n0}, {"kind": "own", "sub": "p0", "level": "L", "label": "R"}])
+    else:
+        w = cm.world(S, [{"kind": "own", "sub": "f0", "level": "L", "label": n0}, {"kind": "own", "sub": "p1", "level": "L", "label": "L"}],
+                     [["e0", "e1"]])
+    W = World(B, w)
+    f0 = W.sub("f0")
+    if loc == "own-V":
+        f0.expand()
+    elif loc == "env-PF":
+        e = W.envs["e0"]
+        e.combine()
+        e.reorder(e.polarization, e.fock)
+    elif loc == "ps-second":
+        W.ces[0].combine(W.sub("p1"), f0)
+    op = Operation(getattr(FockOperationType, case["op"]), **({"alpha": par} if case["op"] == "Displace" else {"zeta": par}))
+    f0.apply_operation(op)
+    post = W.snapshot()
+    d = int(f0.dimensions)
+    comp = [m for m in post.block_of(f0).members]
+    rho, dims = post.joint(comp)
+    red, _ = ref.partial_trace(rho, dims, [[id(m) for m in comp].index(id(f0))])
+    got = np.array([[complex(_c(B, red[i, j])) for j in range(d)] for i in range(d)])
+    # ideal state at a large cut-off
+    Dbig = 60
+    a = np.diag(np.sqrt(np.arange(1, Dbig)), 1).astype(complex)
+    ad = a.conj().T
+    G = par * ad - np.conj(par) * a if case["op"] == "Displace" else 0.5 * (np.conj(par) * a @ a - par * ad @ ad)
+    psi = sl.expm(G)[:, n0]
+    lost = float(np.sum(np.abs(psi[d:]) ** 2)) if d < Dbig else 0.0
+    want = np.outer(psi[:d], psi[:d].conj())
+    if case["op"] == "Squeeze":  # this operation type renormalises
+        want = want / np.trace(want).real
+    err = float(np.max(np.abs(got - want)))
+    # (100x the documented threshold: the dimension search compares floats, a tighter bound would make the verdict depend
+    #  on rounding differences between the exact-rational and the floating-point run)
+    B.require_structural(lost <= 1e-4, f"C10/ideal: cut-off chosen for {case['op']}({par}) on |{n0}> drops more than 1e-4 of the "
+                                       f"ideal state's population (documented threshold 1e-6)", detail={"cutoff": d, "lost": lost})
+    B.require_structural(err <= 5e-3, f"C10/ideal: {case['op']}({par}) on |{n0}> deviates from the ideal state by more than 5e-3",
+                         detail={"cutoff": d, "err": err})
+    checks.check_wf(B, W, post, "C10/ideal wf", unit=False, numeric=False)
+
+
+def _c(B, x):
+    if B.mode == "real":
+        return complex(x)
+    from symx import core
+
+    return complex(core.SC.lift(x))
 
 
 def scenario(B, case):
     from symx.explore import Cut
     from symx.world import World
 
+    if case["what"] == "ideal":
+        return _ideal(B, case)
     W = World(B, case["world"])
     h = W.h
     t = W.sub(case["target"])
